@@ -302,9 +302,9 @@ func verifC19ChooseFilter(full bool) (*verifC19FilterSpec, bool) {
 			p = [3]int{0, 1, 0}
 		}
 	case full && withGsfa:
-		p = [3]int{0, verifChoice("exclude", 4), verifChoice("required", 4)}
+		p = [3]int{0, verifChoice("exclude", 3), verifChoice("required", 3)}
 	case full:
-		p = [3]int{verifChoice("include", 4), verifChoice("exclude", 4), verifChoice("required", 4)}
+		p = [3]int{verifChoice("include", 3), verifChoice("exclude", 3), verifChoice("required", 3)}
 	case withGsfa:
 		p = verifC19GsfaProfiles[verifChoice("profile", len(verifC19GsfaProfiles))]
 	default:
